@@ -1320,10 +1320,16 @@ impl Visitor<Diagnostic> for LibraryRenderer {
         &mut self,
         node: &dsl::textual::CaseStatementGroup,
     ) -> Result<Self::Value, Diagnostic> {
-        for selector in node.selectors.iter() {
+        let mut selectors = node.selectors.iter().peekable();
+        while let Some(selector) = selectors.next() {
             self.visit_case_selection_kind(selector)?;
-            self.write_ws(":");
-            self.newline();
+            match selectors.peek() {
+                Some(_) => self.write_ws(","),
+                None => {
+                    self.write_ws(":");
+                    self.newline();
+                }
+            }
         }
 
         self.indent();
